@@ -23,8 +23,7 @@ def _short_str(x):
     x = str(x)
     if len(x) <= 28:
         return repr(x)
-    import hashlib
-    return "%r..#%s" % (x[:16], hashlib.md5(x.encode()).hexdigest()[:6])
+    return "%r.." % x[:16]      # long literals (e.g. the compiled-in prelude) are identified by their head only
 
 
 def shape(fn, op, depth=3, _seen=None):
